@@ -11,6 +11,15 @@ PROP = dict(
         dict(module="MCCredentials", cfg="MCCredentials_mut_lastcolon.cfg", expect_violation="Holds", timeout=300),
         dict(module="MCCredentials", cfg="MCCredentials_mut_queryfirst.cfg", expect_violation="Holds", timeout=300),
         dict(module="MCCredentials", cfg="MCCredentials_mut_defaultalways.cfg", expect_violation="Holds", timeout=300),
+        dict(module="MCCredentials", cfg="MCCredentials_mut_staticbeforeauth.cfg", expect_violation="Holds", timeout=300),
+        # history on one Runtime: the configuration (default credential, Debug) is replaced between requests; the model's memory stays empty
+        dict(module="MCCredentialsSession", cfg=dict(quick="MCCredentialsSession_quick.cfg", thorough="MCCredentialsSession_thorough.cfg"),
+             timeout=dict(quick=600, thorough=3000)),
+        # non-vacuity: a Runtime that remembers its first default / sends the header redacted for the debug dump / lets static query
+        # parameters beat the auth writer's must violate
+        dict(module="MCCredentialsSession", cfg="MCCredentialsSession_mut_stickydefault.cfg", expect_violation="Holds", timeout=300),
+        dict(module="MCCredentialsSession", cfg="MCCredentialsSession_mut_redactsent.cfg", expect_violation="Holds", timeout=300),
+        dict(module="MCCredentialsSession", cfg="MCCredentialsSession_mut_staticbeforeauth.cfg", expect_violation="Holds", timeout=300),
     ],
     level_text="Credentials models what the client writers (BasicAuth, APIKeyAuth, BearerToken, Compose, the default-authentication wrapper) put "
                "on the wire and how the server authenticators (BasicAuth*, APIKeyAuth*, BearerAuth*, plain and Ctx) read it back (base64 + cut "
@@ -18,22 +27,32 @@ PROP = dict(
                "run of an authenticator (callback arguments = written credential, scopes passed, applies iff a credential of that kind is "
                "carried, principal/error are the callback's, realm / scheme markers). TLC checks code |= property for all users/passwords/"
                "tokens over an 8-class alphabet and all combinations of operation auth, default auth, preset Authorization header and "
-               "token placements x every authenticator, and validates every authenticator run on requests built by the real client "
-               "(directly and through a real httptest.Server) against the property.",
+               "token placements x static query parameters of the base path / path pattern named like a query key x every authenticator. "
+               "History is a first-class dimension: one Runtime modelled as a state machine (state = its configuration: default credential, "
+               "Debug; memory that must stay empty) makes sequences of requests with the configuration REPLACED in between, each judged "
+               "for the configuration in force when it is made. TLC validates every authenticator run on requests built by the real "
+               "client (directly and really sent through a httptest.Server, Debug on or off) against the property; the trace spec is "
+               "the same state machine driven by configure / request events.",
     level_note="bounded exhaustive at model level; real code bound by trace validation of the executed cases only; base64 is abstract in "
                "the model (the real encoding is exercised by the driver)",
     design_ref="DESIGN.md 4.14",
     driver="c14",
     trace=dict(module="TraceCredentials", cfg="TraceCredentials.cfg"),
-    rule="case = one request description (operation writers incl. Compose, default writers, preset Authorization/header/query/form "
+    rule="case = a session of 1-5 steps on one client.Runtime; step = configuration set before the request (DefaultAuthentication, Debug, "
+         "base path with static query parameters) + one request description (operation writers incl. Compose, default writers, preset Authorization/header/query/form "
          "parameters, form media type, transport direct|httptest.Server) with a list of authenticators each run on a fresh copy of the "
          "request; exhaustive part: every user (no ':') x password, key and token of <=2 atoms over {a : space non-ASCII + % = &} per "
          "scheme and placement; all operation-auth sequences of <=2 writers over a 6-writer pool x 4 defaults x 8 preset subsets x "
-         "urlencoded/multipart x 32 authenticators (plain/Ctx, accepting/rejecting callback); seeded part: arbitrary-byte credentials. "
+         "urlencoded/multipart x 32 authenticators (plain/Ctx, accepting/rejecting callback); static query parameters (base, pattern, both) "
+         "named api_key / k / access_token x 6 operation auths x 3 defaults x params-writer value x transports; Debug on x 6 header-"
+         "credential operation auths x 4 defaults x preset header x media x transports; sessions: every ordered pair of 7 defaults "
+         "(absent, bearer, refreshed bearer, query key, header key, basic, new password) x 5 requests, Debug / base path switched "
+         "between requests; seeded part: arbitrary-byte credentials, random configuration, 600 (thorough 6000) random sessions. "
          "Non-trivial: some authenticator's callback was consulted; distinct by hash of the case.",
     assumptions=COMMON_ASSUME + [
         "header-borne keys and tokens are transportable header values (no CR/LF/control bytes, no leading or trailing blanks); user names contain no ':'",
         "the params writer never sets a Basic or Bearer Authorization header itself; API-key header names are valid header tokens other than Authorization",
         "forms are sent with POST; authenticators are invoked as the middleware does (ScopedAuthRequest), basic/apikey also with the bare request",
+        "a static query parameter occurs at most once per source (base path, path pattern); a lone static parameter named like a key is a credential the request carries",
     ],
 )
